@@ -16,7 +16,7 @@ import assemble as A  # noqa: E402
 VERIF = A.VERIF
 CACHE = os.path.join(VERIF, '.cache')
 UNITS = os.path.join(VERIF, 'units')
-VERUS_FLAGS = ['--output-json', '--time', '--multiple-errors', '20', '--triggers-mode', 'silent']
+VERUS_FLAGS = ['--output-json', '--time', '--multiple-errors', '20', '--triggers-mode', 'silent', '--rlimit', '40']   # 4x the default resource limit: head-room for the heaviest lemma (deterministic, not time based)
 
 
 def load_hooks():
